@@ -272,12 +272,31 @@ func runC16(c *Ctx) {
 		}
 	}
 
+	c.Rule("C16-D5", "snapshots leave the lock as copies: what the handler stores hand to code that runs outside their mutex (getAll → forEach / dispatch loops) is a freshly allocated slice, never the guarded slice itself — On/Off mutate that slice in place under the lock while the dispatcher iterates its snapshot unlocked", 2)
+	freshResult(c, "C16-D5", "sio.handlerStore.getAll", p.Fn("sio", "handlerStore.getAll"))
+	freshResult(c, "C16-D5", "sio.eventHandlerStore.getAll", p.Fn("sio", "eventHandlerStore.getAll"))
+	for _, a := range []struct{ short, fn string }{{"sio", "clientSocketStore.getAll"}, {"sio", "serverSocketStore.getAll"}, {"sio", "serverSocketStore.getAndRemoveAll"}, {"sio", "nspSocketStore.getAll"}, {"eio", "socketStore.getAll"}} {
+		freshResult(c, "C16-D5", a.short+"."+a.fn, p.Fn(a.short, a.fn))
+	}
+
 	c.Rule("C16-D4", "lock order: the graph 'class B acquired while class A is held' (direct acquisitions and acquisitions in statically resolved callees) has no cycle; no mutex is acquired while the same mutex is certainly held; a Once body does not reach Do of the same Once", 30)
 	{
+		useCGForLocks = true
 		edges := lockOrderEdges(p)
 		adj := map[string]map[string]orderEdge{}
+		selfSeen := map[string]bool{}
 		for _, e := range edges {
 			if e.from == e.to {
+				// the same lock CLASS is acquired inside a call made while it is held
+				if e.via == "direct" || selfSeen[e.from+"@"+FuncName(e.fn)] {
+					continue // direct re-acquisition is decided exactly by the must-held rule below
+				}
+				selfSeen[e.from+"@"+FuncName(e.fn)] = true
+				if e.from == "adapter.inMemoryAdapter.mu" && strings.Contains(FuncName(e.fn), "inMemoryAdapter).apply") {
+					c.Except("C16-D4", "self:"+e.from+"@"+FuncName(e.fn), e.instr.Pos(), "apply's iteration callbacks release mu before re-acquiring it around the user callback (decided exactly by the inherited lockset: see C16-D3 / C04-D4 outside-lock)")
+					continue
+				}
+				c.Ob("C16-D4", "self:"+e.from+"@"+FuncName(e.fn), e.instr.Pos(), false, fmt.Sprintf("%s is held here and a callee reachable from this call (%s) acquires a mutex of the same class — through an interface or callback (VTA call graph) this is the same object: self-deadlock (Go mutexes are not re-entrant; a pending writer also blocks a recursive RLock)", e.from, e.via))
 				continue
 			}
 			if adj[e.from] == nil {
